@@ -23,7 +23,7 @@ impl Elem for f64 {
     fn score(sc: Option<f64>) -> Self { sc.unwrap_or(f64::NAN) }
 }
 impl Elem for Option<f64> {
-    fn cell(&self) -> Cell { match self { Some(x) => Cell::F(*x), None => Cell::Null } }
+    fn cell(&self) -> Cell { match self { Some(x) if x.is_nan() => Cell::Err, Some(x) => Cell::F(*x), None => Cell::Null } }   // Some(NaN) is not a null (DESIGN 5.4)
     fn null(&self) -> bool { self.is_none() }
     fn score(sc: Option<f64>) -> Self { sc }
 }
